@@ -5,6 +5,8 @@ import Pyunicorn.Generated.ArithC16
 import Pyunicorn.Generated.StructC16
 import Pyunicorn.Lemmas.EventsObject
 import Pyunicorn.Lemmas.EventsF32
+import Pyunicorn.Lemmas.EventsF64
+import Pyunicorn.Lemmas.EventsNpQuantile
 /-!
 # C16 — Event synchronisation / coincidence follow their counting rules
 
@@ -1596,5 +1598,255 @@ theorem ecaAnalysisF32_range (w : Window) (ts : List Rat) (E : Mat Bool) (n : Na
           simp only [Option.some.injEq] at hr
           subst hr
           exact symmOp_between s hs a b 0 1 (rng i j hi hj a ha) (rng j i hj hi b hb)
+
+/-! ## round 4: the float64 strengths under a rounding model
+
+`strengthF64 c n = rn53 (c / sqrt53 n)`: `sqrt53 n` the double nearest to `√n` (correctly
+rounded `np.sqrt`), one correctly rounded division.  The driver answers `esf64` / `esmatf64`
+with these values and the harness compares them bit for bit with the implementation. -/
+
+/-- **float-level range of `event_synchronization`**: for strictly increasing event times and a
+norm `(lx-2)(ly-2) ≤ 2⁴⁸` both *doubles* returned — counts divided by the rounded square root,
+the quotient rounded — lie in `[0, 1]`; the rounding never carries a strength above `1` -/
+theorem es_f64_range (ex ey : List Rat) (tm : Option Rat) (lag : Rat)
+    (hx : List.Pairwise (· < ·) ex) (hy : List.Pairwise (· < ·) ey)
+    (hsize : (ex.length - 2) * (ey.length - 2) ≤ 2 ^ 48) (v : Rat)
+    (hv : (esF64 (es ex ey tm lag)).1 = some v ∨ (esF64 (es ex ey tm lag)).2 = some v) :
+    0 ≤ v ∧ v ≤ 1 := by
+  cases hr : es ex ey tm lag with
+  | nan => rw [hr] at hv; rcases hv with h | h <;> cases h
+  | zero =>
+    rw [hr] at hv
+    rcases hv with h | h <;> (injection h with h; subst h; norm_num)
+  | val a b n =>
+    rw [hr] at hv
+    obtain ⟨hn, hn1, hka, hkb⟩ := es_val_facts ex ey tm lag a b n hr
+    obtain ⟨⟨ha0, ha1⟩, ⟨hb0, hb1⟩⟩ := es_range ex ey tm lag a b n hx hy hr
+    have hn48 : n ≤ 2 ^ 48 := by rw [hn]; exact hsize
+    rcases hv with h | h
+    · injection h with h; subst h
+      exact strengthF64_range a n ha0 hka (by rw [pow_two]; exact ha1) hn1 hn48
+    · injection h with h; subst h
+      exact strengthF64_range b n hb0 hkb (by rw [pow_two]; exact hb1) hn1 hn48
+
+/-- the same from binary series and strictly increasing time stamps (records of up to
+`2²⁴` samples: `(lx-2)(ly-2) ≤ 2⁴⁸`) -/
+theorem esSeries_f64_range (ts1 ts2 : List Rat) (bx by_ : List Bool) (tm : Option Rat) (lag : Rat)
+    (h1 : List.Pairwise (· < ·) ts1) (h2 : List.Pairwise (· < ·) ts2)
+    (hsize : ((select ts1 bx).length - 2) * ((select ts2 by_).length - 2) ≤ 2 ^ 48) (v : Rat)
+    (hv : (esF64 (esSeries ts1 bx ts2 by_ tm lag)).1 = some v ∨
+          (esF64 (esSeries ts1 bx ts2 by_ tm lag)).2 = some v) :
+    0 ≤ v ∧ v ≤ 1 :=
+  es_f64_range _ _ tm lag ((event_times_sorted ts1 bx 0).1 h1) ((event_times_sorted ts2 by_ 0).1 h2)
+    hsize v hv
+
+/-- non-vacuity: the counting branch with a norm far below `2⁴⁸` -/
+example : ∃ a b n, es [0, 1, 2, 4, 6, 7] [0, 1, 3, 4, 6, 8] none 0 = .val a b n ∧ n ≤ 2 ^ 48 :=
+  ⟨_, _, 16, rfl, by norm_num⟩
+
+/-- **accuracy of the model square root and quotient**: `sqrt53 n` squared is within `2⁻⁵⁰`
+relative of `n`; the returned double is within `2⁻⁵³` relative of `count / sqrt53 n`; a perfect
+square has its exact root -/
+theorem es_f64_accuracy (c : Rat) (n : Nat) (hc0 : 0 ≤ c) (hn1 : 1 ≤ n) :
+    ((n : Rat) * (1 - 1 / 2 ^ 51) ≤ sqrt53 n ^ 2 ∧ sqrt53 n ^ 2 ≤ (n : Rat) * (1 + 1 / 2 ^ 50)) ∧
+    |strengthF64 c n - c / sqrt53 n| ≤ c / sqrt53 n / 2 ^ 53 ∧
+    (∀ k : Nat, k < 2 ^ 53 → sqrtSticky (k * k) = (k : Rat) ∧ (k : Rat) ≤ sqrt53 (k * k)) :=
+  ⟨sqrt53_sq_bounds n hn1, strengthF64_err c n hc0 hn1,
+    fun k hk => ⟨sqrtSticky_square k, sqrt53_square k hk⟩⟩
+
+/-- **the rational handed to the rounding brackets `√n` at `2⁻⁵⁴`**: `sqrtFloor n ≤ √n <
+sqrtFloor n + 2⁻⁵⁴` (in squares), the sticky value lies in between, so `sqrt53 n` is the
+rounding of a number in the same `2⁻⁵⁴`-cell as `√n` -/
+theorem sqrt53_bracket (n : Nat) :
+    sqrtFloor n ^ 2 ≤ (n : Rat) ∧ (n : Rat) < (sqrtFloor n + 1 / 2 ^ 54) ^ 2 ∧
+    sqrtFloor n ≤ sqrtSticky n ∧ sqrtSticky n ≤ sqrtFloor n + 1 / 2 ^ 55 :=
+  ⟨sqrtFloor_sq_le n, lt_sqrtFloor_succ_sq n, sqrtFloor_le_sticky n, sqrtSticky_le n⟩
+
+/-- **symmetrised doubles**: `directed` / `mean` / `max` / `min` of two doubles in `[0,1]`
+(sum rounded once, halved exactly) stay in `[0,1]` -/
+theorem esSymmF64_range (s : Symm) (hs : s = .directed ∨ s = .mean ∨ s = .max ∨ s = .min)
+    (a b : Rat) (ha : 0 ≤ a ∧ a ≤ 1) (hb : 0 ≤ b ∧ b ≤ 1) :
+    0 ≤ symmOpF64 s a b ∧ symmOpF64 s a b ≤ 1 :=
+  symmOpF64_range s hs a b ha hb
+
+example : symmOpF64 .mean (1 / 3) (1 / 2) = rn53s (5 / 6) / 2 := by
+  simp only [symmOpF64]; norm_num
+
+/-! ## round 4: `np.quantile` / `np.median` as NumPy computes them, and the threshold array -/
+
+/-- **NumPy's `'linear'` quantile is the model's `quantile`** for every array and `0 ≤ q ≤ 1`
+(virtual index `(n-1)q`, `_get_indexes` with the last element for `(n-1)q ≥ n-1`, weight
+`virtual - previous`, two-branch `_lerp`) -/
+theorem np_quantile_is_model (a : List Rat) (q : Rat) (h0 : 0 ≤ q) (h1 : q ≤ 1) :
+    npQuantile a q = quantile a q := npQuantile_eq_quantile a q h0 h1
+
+/-- **`np.median` (middle element / mean of the two middle elements) is the model's median** -/
+theorem np_median_is_model (a : List Rat) : npMedian a = median a := (median_eq_npMedian a).symm
+
+example : npQuantile [3, 1, 2, 7] (3 / 8) = quantile [3, 1, 2, 7] (3 / 8) :=
+  np_quantile_is_model _ _ (by norm_num) (by norm_num)
+
+/-- **interpolation**: both branches of `_lerp` are `a + (b-a)t = (1-t)a + tb`; for
+`0 ≤ t ≤ 1` and `a ≤ b` the result lies in `[a, b]`, equals `a` at `t = 0` and `b` at `t = 1`,
+and is monotone in `t` -/
+theorem np_lerp_interpolation (a b t : Rat) :
+    npLerp a b t = a + (b - a) * t ∧ npLerp a b t = (1 - t) * a + t * b ∧
+    npLerp a b 0 = a ∧ npLerp a b 1 = b ∧
+    (a ≤ b → 0 ≤ t → t ≤ 1 → a ≤ npLerp a b t ∧ npLerp a b t ≤ b) ∧
+    (a ≤ b → ∀ t', t ≤ t' → npLerp a b t ≤ npLerp a b t') := by
+  refine ⟨npLerp_eq a b t, npLerp_convex a b t, ?_, ?_, ?_, ?_⟩
+  · rw [npLerp_eq]; ring
+  · rw [npLerp_eq]; ring
+  · intro hab h0 h1
+    rw [npLerp_eq]
+    have hd : 0 ≤ b - a := by linarith
+    have m0 := mul_nonneg hd h0
+    have m1 := mul_le_mul_of_nonneg_left h1 hd
+    constructor <;> linarith
+  · intro hab t' htt
+    rw [npLerp_eq, npLerp_eq]
+    have hd : 0 ≤ b - a := by linarith
+    have := mul_le_mul_of_nonneg_left htt hd
+    linarith
+
+/-- the quantile is the interpolation between the two neighbouring order statistics with the
+fractional part of `(n-1)q` as weight (what `np_lerp_interpolation` is applied to) -/
+theorem np_quantile_interpolates (a : List Rat) (q : Rat) (h0 : 0 ≤ q) (h1 : q ≤ 1) :
+    npQuantile a q = npLerp ((sortedOf a).getD (qLo a.length q) 0)
+      ((sortedOf a).getD (qHi a.length q) 0) (((a.length : Rat) - 1) * q - (qLo a.length q : Rat)) := by
+  rw [npQuantile_eq_quantile a q h0 h1, quantile_eq, npLerp_eq]
+
+section numpy
+open Pyunicorn.Generated
+
+/-- **the model of `np.quantile` restated from the installed NumPy's source**: the virtual
+index is `_QuantileMethods['linear']['get_virtual_index'](n, q)`, the weight
+`fix_gamma(_get_gamma(...))`, the indexes `floor` / `+ 1` with the two clippings of
+`_get_indexes` in source order, the interpolation the two statements of `_lerp` under its
+`where=` test; `'linear'` is the default method of `np.quantile` and `_quantile` -/
+theorem gen_np_quantile (a : List Rat) (q v : Rat) (n : Nat) (x y t : Rat) :
+    npQuantile a q =
+      (let s := a.mergeSort (fun x y => decide (x ≤ y))
+       let vi := StructC16.npVirtualIndex (s.length : Rat) q
+       let ix := npIndexes vi s.length
+       npLerp (pyIdx s ix.1) (pyIdx s ix.2)
+         (StructC16.npFixGamma (StructC16.npGamma vi (ix.1 : Rat)))) ∧
+    npIndexes v n =
+      (let prev : Int := v.floor
+       let next := StructC16.npNext prev
+       let pn := if StructC16.npAbove v (n : Rat) then (StructC16.npAbovePrev, StructC16.npAboveNext)
+                 else (prev, next)
+       if StructC16.npBelow v then (StructC16.npBelowPrev, StructC16.npBelowNext) else pn) ∧
+    npLerp x y t =
+      (if StructC16.npLerpWhere t then StructC16.npLerpHi y (StructC16.npLerpDiff x y) t
+       else StructC16.npLerpLo x (StructC16.npLerpDiff x y) t) ∧
+    StructC16.npQuantileDefaultMethod = "linear" ∧
+    StructC16.npQuantileInnerDefaultMethod = "linear" ∧ StructC16.npQuantileWiring = 7 := by
+  refine ⟨rfl, ?_, ?_, rfl, rfl, rfl⟩
+  · simp only [npIndexes, StructC16.npNext, StructC16.npAbove, StructC16.npBelow,
+      StructC16.npAbovePrev, StructC16.npAboveNext, StructC16.npBelowPrev, StructC16.npBelowNext,
+      decide_eq_true_eq]
+  · simp only [npLerp, StructC16.npLerpWhere, StructC16.npLerpHi, StructC16.npLerpLo,
+      StructC16.npLerpDiff, decide_eq_true_eq]
+
+/-- **Hyndman & Fan type 7**: NumPy's general virtual index `n·q + (α + q(1-α-β)) - 1` at
+`α = β = 1` is the `(n-1)·q` the `'linear'` entry uses ("mathematically equivalent" in the
+source), i.e. the documented `q·n + m - 1` with `m = 1 - q` -/
+theorem np_virtual_index_hf7 (n q : Rat) :
+    StructC16.npComputeVirtualIndex n q 1 1 = StructC16.npVirtualIndex n q ∧
+    StructC16.npVirtualIndex n q = q * n + (1 - q) - 1 := by
+  simp only [StructC16.npComputeVirtualIndex, StructC16.npVirtualIndex]
+  constructor <;> ring
+
+/-- `np.median` restated from `_median`: `index = n // 2`, the slice `[index, index+1)` for odd
+and `[index-1, index+1)` for even `n`, then the mean of the slice -/
+theorem gen_np_median (a : List Rat) :
+    npMedian a =
+      (let s := a.mergeSort (fun x y => decide (x ≤ y))
+       let index := StructC16.npMedianIndex s.length
+       if StructC16.npMedianOdd s.length then
+         s.getD (StructC16.npMedianSliceOdd index).1 0
+       else (s.getD (StructC16.npMedianSliceEven index).1 0
+             + s.getD ((StructC16.npMedianSliceEven index).2 - 1) 0) / 2) := by
+  simp only [npMedian, StructC16.npMedianIndex, StructC16.npMedianOdd, StructC16.npMedianSliceOdd,
+    StructC16.npMedianSliceEven, decide_eq_true_eq, Nat.add_sub_cancel]
+
+/-- **the threshold array as allocated in the source** (focus: seed C16-6): the one allocation
+of `thresholds` names no dtype other than float64 (and neither does `eventmatrix`); exactly
+three statements store into `thresholds[i]` — the two-argument `np.quantile` call (default
+method), `np.median`, the given value — and the marking loop compares `data[t][i] >` / `<`
+`thresholds[i]` -/
+theorem gen_threshold_store :
+    storeOfDType StructC16.thresholdsDType = some StoreTy.float64 ∧
+    StructC16.eventmatrixDType = "float64" ∧
+    StructC16.thresholdsShape = "data.shape[1]" ∧
+    StructC16.thresholdStores = ["np.quantile(data_axswap[i], threshold_values[i])",
+      "np.median(data_axswap[i])", "threshold_values[i]"] ∧
+    StructC16.markStatements = [("Gt", "eventmatrix[t][i] = 1", "eventmatrix[t][i] = 0"),
+      ("Lt", "eventmatrix[t][i] = 1", "eventmatrix[t][i] = 0")] := by
+  refine ⟨?_, ?_, ?_, ?_, ?_⟩ <;> decide
+
+/-- **`make_event_matrix` through NumPy's algorithms and the array the source allocates is the
+model**: with the store type the allocation statement names, `makeEventMatrixD` (NumPy's
+quantile / median algorithms, thresholds passing through the array) equals `makeEventMatrix`,
+so `threshold_marks_exactly_quantile` / `_value` speak about the code as written -/
+theorem makeEventMatrix_numpy (st : StoreTy)
+    (hst : storeOfDType StructC16.thresholdsDType = some st) (data : Mat Rat) (nvar : Nat)
+    (ms : List TMethod) (vs : List (Option Rat)) (tys : List (Option TType)) :
+    makeEventMatrixD st data nvar ms vs tys = makeEventMatrix data nvar ms vs tys := by
+  have h := gen_threshold_store.1
+  rw [h] at hst
+  injection hst with hst
+  subst hst
+  exact makeEventMatrixD_float64 data nvar ms vs tys
+
+end numpy
+
+/-- **why the dtype matters**: stored into an array of the (integer) data's dtype, a positive
+non-integer threshold is truncated to `⌊th⌋`, and the sample equal to `⌊th⌋` — below the stated
+threshold — is no longer marked by `'below'`; symmetrically for negative thresholds and
+`'above'` -/
+theorem threshold_truncation_breaks (th : Rat) (hpos : 0 < th) (hfrac : (th.floor : Rat) < th) :
+    mark th .below (th.floor : Rat) = true ∧
+    mark (storeThr .dataInt th) .below (th.floor : Rat) = false := by
+  have h1 : ¬ th < 0 := by linarith
+  simp only [mark, storeThr, truncZero, if_neg h1, decide_eq_true_eq, decide_eq_false_iff_not]
+  exact ⟨hfrac, lt_irrefl _⟩
+
+/-- integer data under a non-integer threshold: `'above'` marks exactly the samples
+`≥ ⌊th⌋ + 1`, `'below'` exactly the samples `≤ ⌊th⌋` -/
+theorem threshold_integer_data (th : Rat) (d : Int) (hfrac : (th.floor : Rat) < th) :
+    (mark th .above (d : Rat) = true ↔ th.floor + 1 ≤ d) ∧
+    (mark th .below (d : Rat) = true ↔ d ≤ th.floor) := by
+  have hlt : th < (th.floor : Rat) + 1 := by
+    have := Rat.lt_floor_add_one th
+    push_cast at this
+    exact this
+  simp only [mark, decide_eq_true_eq]
+  constructor
+  · constructor
+    · intro h
+      have : th.floor < d := by
+        have : ((th.floor : Int) : Rat) < (d : Rat) := lt_trans hfrac h
+        exact_mod_cast this
+      omega
+    · intro h
+      have : ((th.floor + 1 : Int) : Rat) ≤ (d : Rat) := by exact_mod_cast h
+      push_cast at this
+      linarith
+  · constructor
+    · intro h
+      have : (d : Rat) < ((th.floor + 1 : Int) : Rat) := by push_cast; linarith
+      have : d < th.floor + 1 := by exact_mod_cast this
+      omega
+    · intro h
+      have : (d : Rat) ≤ ((th.floor : Int) : Rat) := by exact_mod_cast h
+      linarith
+
+/-- the seeded allocation (`dtype=data.dtype`, integer counts, value `3/2`, type `'below'`):
+the sample `1` is lost -/
+example : makeEventMatrixD .dataInt [[0], [1], [2], [3]] 1 [.value] [some (3 / 2)] [some .below]
+      ≠ makeEventMatrix [[0], [1], [2], [3]] 1 [.value] [some (3 / 2)] [some .below] := by
+  decide +kernel
 
 end Pyunicorn.Events
